@@ -244,6 +244,8 @@ pub enum FailKind
 {
     Errored,
     NotGenerated(Vec<String>),
+    /// the rule has no command lines at all
+    NoCommand,
 }
 
 #[derive(Clone, Debug, PartialEq)]
@@ -475,6 +477,11 @@ impl Model
             if cancelled
             {
                 outcome[r] = ROut::Cancelled;
+                continue;
+            }
+            if rule.script.is_empty()
+            {
+                outcome[r] = ROut::Failed(FailKind::NoCommand);
                 continue;
             }
             let mut work = scratch.clone();
